@@ -83,6 +83,7 @@ static pthread_t thread_a;
 void alverif_hook_index_store(int table, int slot) {
   (void)table; (void)slot;
   if (hold_at < 0 || !pthread_equal(pthread_self(), thread_a)) return;
+  if (__atomic_load_n(&a_done_create, __ATOMIC_SEQ_CST)) return;     /* only the process's first create is scheduled */
   a_stores++;
   if (a_stores == hold_at) {
     __atomic_store_n(&a_held, 1, __ATOMIC_SEQ_CST);
@@ -120,7 +121,7 @@ static int main_sched(int k) {
   pthread_create(&thread_a, NULL, sched_a, ja);
   /* wait until A is held (or has finished its create without reaching k stores) */
   while (!__atomic_load_n(&a_held, __ATOMIC_SEQ_CST) && !__atomic_load_n(&a_done_create, __ATOMIC_SEQ_CST)) sched_yield();
-  int held = a_held;
+  int held = __atomic_load_n(&a_held, __ATOMIC_SEQ_CST);
   run_job(jb);                       /* B: complete job while A is held */
   __atomic_store_n(&release_a, 1, __ATOMIC_SEQ_CST);
   pthread_join(thread_a, NULL);
